@@ -1,0 +1,33 @@
+//go:build verif
+
+package v2
+
+// Contracts for the deductive checks in /verif (read by /verif/govc; comment-only, no code).
+
+//@ import types github.com/tendermint/tendermint/types
+//@ import sm github.com/tendermint/tendermint/state
+
+// The production context verifies with VerifyCommit (every signature) under the validator set of its own state.
+//@ func pContext.verifyCommit
+//@   requires wf: pc.state.Validators != nil && wfPowers(pc.state.Validators) && wfCached(pc.state.Validators)
+//@   ensures full: result == nil ==> commitVerified(pc.state.Validators, chainID, blockID.Hash, blockID.PartSetHeader.Total, blockID.PartSetHeader.Hash, height, commit)
+
+// ctxVerified: the processor's context accepted this commit for this block id and height (for the production context
+// that is pContext.verifyCommit above).
+//@ spec func ctxVerified(bhash []byte, ptotal uint32, phash []byte, height int64, commit *types.Commit) bool
+//@ extern processorContext.verifyCommit
+//@   assigns nothing
+//@   grants v: result == nil ==> ctxVerified(arg1.Hash, arg1.PartSetHeader.Total, arg1.PartSetHeader.Hash, arg2, arg3)
+//@ extern processorContext.tmState
+//@   assigns nothing
+//@ extern processorContext.saveBlock
+//@   assigns nothing
+//@ extern processorContext.applyBlock
+//@   assigns nothing
+
+// Block sync (v2): the processor saves and applies a block only after its context verified the next block's LastCommit
+// for exactly this block's hash, part-set header and height.
+//@ func pcState.handle
+//@   atcall processorContext.saveBlock committed: ctxVerified(types.Block.Hash(arg0), arg1.total, arg1.hash, arg0.Header.Height, arg2)
+//@   atcall processorContext.saveBlock pair: arg0 == first && arg2 == second.LastCommit
+//@   atcall processorContext.applyBlock same: arg1 == first && arg0.Hash == types.Block.Hash(first) && ctxVerified(arg0.Hash, arg0.PartSetHeader.Total, arg0.PartSetHeader.Hash, first.Header.Height, second.LastCommit)
